@@ -247,6 +247,11 @@ func (w *world) start(n int) (*gen, error) {
 	ld := hs.NewLoader()
 	ld.Set("/from/", g.src)
 	for i := range w.dsts {
+		if i > 0 {
+			// stagger the handlers by a fake millisecond: two retry timers firing at the very
+			// same fake instant would run in an order the explorer does not control
+			time.Sleep(time.Millisecond)
+		}
 		d := &storeProxy{g, w.dsts[i], fmt.Sprintf("dst%d.", i)}
 		q := &kvProxy{g, i}
 		g.dsts = append(g.dsts, d)
@@ -290,7 +295,7 @@ var programs = []program{
 }
 
 func scenario(p program, bound, cbound int) *sched.Config {
-	return &sched.Config{Name: p.name, Bound: bound, ChoiceBound: cbound, SigPrefix: "C19|" + p.name,
+	return &sched.Config{Name: p.name, Bound: bound, ChoiceBound: cbound, DelayBound: !vk.Thorough(), SigPrefix: "C19|" + p.name,
 		FakeHorizon: 60 * time.Second, MaxSteps: 3000,
 		Body: func(x *sched.X) {
 			nd := p.ndst
@@ -414,6 +419,11 @@ func scenario(p program, bound, cbound int) *sched.Config {
 
 func TestCheck(t *testing.T) {
 	defer vk.Cleanup()
+	// status bookkeeping of the sync handler (short critical sections on sh.mu that contain no
+	// point and do not touch the queue, the copy set or the stores) is not a scheduling point
+	vsync.NoPoint = func(c string) bool {
+		return strings.Contains(c, "setStatus") || strings.Contains(c, "incrWriter") || strings.Contains(c, "newCopyStatus") || strings.Contains(c, "getHub") || strings.Contains(c, "GetHub")
+	}
 	if os.Getenv("VERIF_VERBOSE") == "" {
 		log.SetOutput(io.Discard)
 	}
@@ -421,7 +431,10 @@ func TestCheck(t *testing.T) {
 	res := vk.New("C19")
 	res.Rule = "E1 sched with fake clock: per program every schedule with <= bound preemptions (which also places the crash+restart step at every scheduling point) x every placement of <= cbound faults at source fetches and destination receives; verdict per execution: safety at each queue deletion, delivery of every acknowledged blob and an empty queue within the fake-time horizon; distinct = distinct (decision shape, verdict)"
 	res.Assumptions = []string{"fake-time horizon of 60 s after which non-delivery is a violation", "crash = goroutines of the handler stop at their next scheduling point and their store operations fail without effect", "GOMAXPROCS=1; select among ready channels inside perkeep is not controlled"}
-	bound, cbound := 2, 1
+	// quick: every single preemption (which also places the crash+restart step at every
+	// scheduling point) combined with every single fault; thorough: two preemptions, two faults
+	// (quick is delay-bounded: at most 2 departures from the default scheduler, plus one fault)
+	bound, cbound := 3, 1
 	if vk.Thorough() {
 		bound, cbound = 2, 2
 	}
